@@ -23,7 +23,7 @@ Ltac break_match_hyp H :=
 
 (* all the ways in which [H : step s c = Some (s', o)] can hold, with s' and o substituted *)
 Ltac step_inv H :=
-  unfold step, step_mgr, step_rdclose, step_wact, step_wmsg, step_wcpl, step_wstop, step_wdrain,
+  unfold step, step_mgr, step_rdclose, step_wact, step_wmsg, step_wcpl, step_wreis, step_wstop, step_wdrain,
          complete, default_reply, write_possible, ch_send, ch_recv, ch_close in H;
   repeat (break_match_hyp H; try discriminate H);
   try (injection H as <- <-).
@@ -45,8 +45,8 @@ Ltac rw_proj s :=
 
 Definition phase (r : rstate) : nat :=
   match r with
-  | RRun | RJoinWait _ | RPush _ | RLeaveWait => 0
-  | RClose1 => 1 | RClose2 => 2 | RClose3 => 3 | RDone => 4
+  | RRun | RJoinWait _ | RPush _ | RPushR | RLeaveWait => 0
+  | RClose1 => 1 | RClose2 => 2 | RClose3 => 3 | RClose4 => 4 | RDone => 5
   end%nat.
 
 
@@ -182,18 +182,19 @@ Proof. induction a as [|[c| |] a IH]; intros b; simpl; now rewrite ?IH. Qed.
 (* ------------------------------------------------------------------------------------------ *)
 Record invA (s : st) : Prop := {
   a_cpl_open : closed (cplQ s) = false;
-  a_reg : registered s = true -> phase (rd s) = 0%nat;
+  a_reg : registered s = true -> phase (rd s) = 0%nat /\ joined s = true;
   a_stop : stop_closed s = true <-> (2 <= phase (rd s))%nat;
   a_msg : closed (msgQ s) = true <-> (3 <= phase (rd s))%nat;
   a_act : closed (actQ s) = true <-> (4 <= phase (rd s))%nat;
+  a_reis : closed (reisQ s) = true <-> (5 <= phase (rd s))%nat;
   a_wr : wr s <> WsRun -> stop_closed s = true /\ rec s = [];
   a_exit : wr s = WsExit -> buf (actQ s) = [];
   a_wait : match rd s with
-           | RJoinWait _ => In MJoin (mgrQ s)
+           | RJoinWait _ => In MJoin (mgrQ s) /\ joined s = false
            | RLeaveWait => In MLeave (mgrQ s)
            | _ => True
            end;
-  a_caps : cap (msgQ s) = cap_msg /\ cap (actQ s) = cap_act /\ cap (cplQ s) = cap_cpl;
+  a_caps : cap (msgQ s) = cap_msg /\ cap (actQ s) = cap_act /\ cap (cplQ s) = cap_cpl /\ cap (reisQ s) = cap_reis;
   a_keys : NoDup (map fst (rec s))
 }.
 
@@ -210,15 +211,15 @@ Proof. intros; rewrite in_app_iff; simpl; intuition. Qed.
 
 Ltac invA_fields HA :=
   let H1 := fresh "Hcpl" in let H2 := fresh "Hreg" in let H3 := fresh "Hstop" in
-  let H4 := fresh "Hmsg" in let H5 := fresh "Hact" in let H6 := fresh "Hwr" in
+  let H4 := fresh "Hmsg" in let H5 := fresh "Hact" in let H5r := fresh "Hreis" in let H6 := fresh "Hwr" in
   let H7 := fresh "Hexit" in let H8 := fresh "Hwait" in
   let H10 := fresh "Hcaps" in let H11 := fresh "Hkeys" in
-  destruct HA as [H1 H2 H3 H4 H5 H6 H7 H8 H10 H11].
+  destruct HA as [H1 H2 H3 H4 H5 H5r H6 H7 H8 H10 H11].
 
 Ltac sproj :=
-  cbn [seq rec inQ peer_closed rd joined registered mgrQ msgQ actQ cplQ stop_closed conn_closed wr timers ncalls
+  cbn [seq rec inQ peer_closed rd joined registered mgrQ msgQ actQ cplQ reisQ stop_closed conn_closed wr timers ncalls
        set_seq set_rec set_inQ set_peer_closed set_rd set_joined set_registered set_mgrQ set_msgQ set_actQ
-       set_cplQ set_stop_closed set_conn_closed set_wr set_timers set_ncalls buf cap closed fst snd] in *.
+       set_cplQ set_reisQ set_stop_closed set_conn_closed set_wr set_timers set_ncalls buf cap closed fst snd] in *.
 
 Ltac nodup_keys :=
   sproj; rewrite ?N.eqb_refl; cbn [negb]; repeat first [ assumption | apply NoDup_nil | apply nodup_keys_del | apply nodup_keys_put ].
@@ -426,7 +427,7 @@ Lemma wmsg_enabled : forall s m l, invA s -> wr s = WsRun -> buf (msgQ s) = m ::
   exists pick wok, step s (WMsg pick wok) <> None.
 Proof.
   intros s m l HA Hw Hb. destruct (write_possible_some s) as [wok Hp].
-  destruct m as [typ e|typ| |tag has|].
+  destruct m as [typ e|typ| |tag has| |].
   - exists 0, wok. simpl. unfold step_wmsg, ch_recv. rewrite Hw, Hb, Hp.
     destruct (complete _ _ _); discriminate.
   - exists 0, wok. simpl. unfold step_wmsg, ch_recv. rewrite Hw, Hb, Hp. discriminate.
@@ -439,6 +440,7 @@ Proof.
       destruct (default_reply _ _ _ _); discriminate.
   - exists 0, wok. simpl. unfold step_wmsg, ch_recv. rewrite Hw, Hb, Hp.
     destruct (default_reply _ _ _ _); discriminate.
+  - exists 0, wok. simpl. unfold step_wmsg, ch_recv. rewrite Hw, Hb, Hp. discriminate.
   - exists 0, wok. simpl. unfold step_wmsg, ch_recv. rewrite Hw, Hb, Hp. discriminate.
 Qed.
 
@@ -467,7 +469,7 @@ Proof.
   destruct (mgrQ s) as [|[c| |] q]; auto; exfalso.
   - destruct (registered s); [|discriminate].
     destruct (closed (actQ s)); [discriminate|].
-    rewrite Ha in H. destruct HA as [_ _ _ _ _ _ _ _ (_ & Hc & _) _]. rewrite Hc in H. discriminate.
+    rewrite Ha in H. destruct (a_caps _ HA) as (_ & Hc & _ & _). rewrite Hc in H. discriminate.
   - destruct (rd s); discriminate.
   - destruct (rd s); discriminate.
 Qed.
@@ -487,27 +489,34 @@ Proof.
     assert (H : step s WCpl = None) by (apply Q; reflexivity).
     simpl in H. unfold step_wcpl, ch_recv in H. rewrite Ew, E in H.
     destruct (complete _ _ _); discriminate. }
+  assert (Ereis : buf (reisQ s) = []).
+  { destruct (buf (reisQ s)) as [|m' l] eqn:Eb; auto. exfalso.
+    destruct (write_possible_some s) as [wok Hp].
+    assert (H : step s (WReis wok) = None) by (apply Q; reflexivity).
+    simpl in H. unfold step_wreis, ch_recv in H. rewrite Ew, Eb, Hp in H. discriminate. }
   assert (Er : rd s = RRun).
   { pose proof (quiescent_mgrQ s HA Q) as Hm.
     pose proof (a_wait _ HA) as Hwt. pose proof (a_stop _ HA) as Hst.
+    assert (Hcl : step s RdClose = None) by (apply Q; reflexivity).
+    assert (Hpu : step s RdPush = None) by (apply Q; reflexivity).
+    simpl in Hcl, Hpu. unfold step_rdclose in Hcl. unfold ch_send in Hpu.
+    destruct (a_caps _ HA) as (Hc1 & _ & _ & Hc4).
     destruct (rd s) eqn:Er; auto; exfalso; simpl in *.
+    - rewrite Hm in Hwt; destruct Hwt as [[] _].
+    - destruct (closed (msgQ s)) eqn:Ec; [discriminate|].
+      rewrite Emsg, Hc1 in Hpu. discriminate.
+    - destruct (closed (reisQ s)) eqn:Ec; [discriminate|].
+      rewrite Ereis, Hc4 in Hpu. discriminate.
     - rewrite Hm in Hwt; destruct Hwt.
-    - assert (H : step s RdPush = None) by (apply Q; reflexivity).
-      simpl in H. unfold ch_send in H. rewrite Er in H.
-      destruct (closed (msgQ s)) eqn:Ec; [discriminate|].
-      rewrite Emsg in H. destruct HA as [_ _ _ _ _ _ _ _ (Hc & _ & _) _]. rewrite Hc in H. discriminate.
-    - rewrite Hm in Hwt; destruct Hwt.
-    - assert (H : step s RdClose = None) by (apply Q; reflexivity).
-      simpl in H. unfold step_rdclose in H. rewrite Er in H. destruct (stop_closed s); discriminate.
-    - assert (H : step s RdClose = None) by (apply Q; reflexivity).
-      simpl in H. unfold step_rdclose in H. rewrite Er in H. destruct (ch_close _); discriminate.
-    - assert (H : step s RdClose = None) by (apply Q; reflexivity).
-      simpl in H. unfold step_rdclose in H. rewrite Er in H. destruct (ch_close _); discriminate.
+    - destruct (stop_closed s); discriminate.
+    - destruct (ch_close _); discriminate.
+    - destruct (ch_close _); discriminate.
+    - destruct (ch_close _); discriminate.
     - assert (stop_closed s = true) by (apply Hst; lia). congruence. }
   repeat split; auto.
   destruct (inQ s) as [|m q] eqn:Ei; auto. exfalso.
   assert (H : step s RdRead = None) by (apply Q; reflexivity).
-  simpl in H. rewrite Er, Ei in H. destruct (joined s); discriminate.
+  simpl in H. rewrite Er, Ei in H. destruct m; try discriminate; destruct (joined s); discriminate.
 Qed.
 
 (* an outstanding command in a quiescent state: the connection is up and idle, the command has no timeout *)
@@ -529,5 +538,5 @@ Proof.
   destruct (timer_of_in _ _ _ Hi) as [k' Hk'].
   assert (H : step s (TSend i) = None) by (apply Q; reflexivity).
   simpl in H. unfold ch_send in H. rewrite Hk', (a_cpl_open _ HA), Ecpl in H.
-  destruct HA as [_ _ _ _ _ _ _ _ (_ & _ & Hc) _]. rewrite Hc in H. discriminate.
+  destruct (a_caps _ HA) as (_ & _ & Hc & _). rewrite Hc in H. discriminate.
 Qed.
